@@ -55,6 +55,7 @@ type Engine struct {
 	maxDepth      int
 	timeoutMs     int
 	mapOrderRev   bool
+	mapOrderAlt   bool // reversed order on every second map iteration of a path only
 
 	crossEvery    int
 	assertQueries int
